@@ -77,7 +77,8 @@ def build_expression(s, nodes, pick):
     l = build_expression(s[1], nodes, pick)
     r = build_expression(s[2], nodes, pick)
     if l is not None and r is not None:
-        cls = [X.AddExpression, X.MultiplyExpression, X.SubtractExpression, X.DivideExpression, X.PowerExpression][pick(5)]
+        cls = [X.AddExpression, X.MultiplyExpression, X.SubtractExpression, X.DivideExpression, X.PowerExpression,
+               X.EqualExpression][pick(6)]
         n = cls(l, r)
     elif r is not None:
         n = [X.NegateExpression, X.SgnExpression, X.FactorialExpression][pick(3)](r)
@@ -126,6 +127,50 @@ def ids_of(s):
 
 
 # ----------------------------------------------------------------------------- C14
+
+
+def expr_link_problem(py):
+    """get_children / is_leaf / get_root / get_side / get_sibling / get_root_side of every node of a
+    real expression tree against its links; returns (query, node text) or None"""
+    def links_inorder(n):
+        return [] if n is None else links_inorder(n.left) + [n] + links_inorder(n.right)
+    for o in links_inorder(py):
+        problem = None
+        try:
+            par = o.parent
+            kids = [k for k in (o.left, o.right) if k is not None]
+            if [id(k) for k in o.get_children()] != [id(k) for k in kids]:
+                problem = "get_children"
+            elif o.is_leaf() != (not kids):
+                problem = "is_leaf"
+            elif o.get_root() is not py:
+                problem = "get_root"
+            elif par is None:
+                if o.get_sibling() is not None:
+                    problem = "get_sibling of the root"
+            else:
+                side = "left" if par.left is o else "right"
+                other = par.right if side == "left" else par.left
+                if par.get_side(o) != side:
+                    problem = "get_side"
+                elif o.get_sibling() is not other:
+                    problem = "get_sibling"
+                else:
+                    top = o
+                    while top.parent is not None and top.parent is not py:
+                        top = top.parent
+                    want_rs = "left" if py.left is top else "right"
+                    if o.get_root_side() != want_rs:
+                        problem = "get_root_side"
+        except Exception as e:  # noqa
+            problem = f"link query raised {type(e).__name__}"
+        if problem:
+            try:
+                txt = str(o)
+            except Exception:  # noqa
+                txt = type(o).__name__
+            return (problem, txt)
+    return None
 
 
 def c14(ctx):
@@ -361,40 +406,48 @@ def c14(ctx):
                 bad.append({"tree": core.tuple_str(t), "query": "find_type on a sub-node", "receiver": str(recv)})
                 break
         # link queries on the real expression classes, judged by object identity (equal-looking
-        # siblings such as `4 + 4` or `x * x` are different nodes)
-        for o in want_in:
-            problem = None
-            try:
-                par = o.parent
-                kids = [k for k in (o.left, o.right) if k is not None]
-                if [id(k) for k in o.get_children()] != [id(k) for k in kids]:
-                    problem = "get_children"
-                elif o.is_leaf() != (not kids):
-                    problem = "is_leaf"
-                elif o.get_root() is not py:
-                    problem = "get_root"
-                elif par is None:
-                    if o.get_sibling() is not None:
-                        problem = "get_sibling of the root"
-                else:
-                    side = "left" if par.left is o else "right"
-                    other = par.right if side == "left" else par.left
-                    if par.get_side(o) != side:
-                        problem = "get_side"
-                    elif o.get_sibling() is not other:
-                        problem = "get_sibling"
+        # siblings such as `4 + 4` or `x * x` are different nodes) — on the tree as built, and again
+        # after the tree was edited (operands replaced / removed and re-set, a rule applied in place,
+        # a node rotated): the answers follow the links as they are NOW
+        pr_ = expr_link_problem(py)
+        if pr_:
+            bad.append({"tree": core.tuple_str(t), "query": pr_[0] + " (expression classes)", "node": pr_[1]})
+        else:
+            edits = []
+            cur = py
+            for _e in range(rng.choice([1, 2, 3])):
+                nodes_ = links_inorder(cur)
+                n_ = rng.choice(nodes_)
+                kind = rng.choice(["set_child", "replace", "rule", "rotate", "reset"])
+                try:
+                    if kind == "set_child" and isinstance(n_, X.UnaryExpression):
+                        n_.set_child(X.VariableExpression("q"))
+                    elif kind == "replace" and n_.parent is not None:
+                        n_.parent.set_side(X.ConstantExpression(7), n_.parent.get_side(n_))
+                    elif kind == "rule":
+                        opts = [(rn, m) for rn in ("ca", "cs1", "dm", "rs", "mi") for m in core.rule_instance(rn).find_nodes(cur)]
+                        if not opts:
+                            continue
+                        rn, m = opts[rng.randrange(len(opts))]
+                        cur = core.rule_instance(rn).apply_to(m).result.get_root()
+                    elif kind == "rotate" and n_.parent is not None and isinstance(n_, X.BinaryExpression) \
+                            and isinstance(n_.parent, X.BinaryExpression):
+                        n_.rotate()
+                        cur = n_.get_root()
+                    elif kind == "reset" and isinstance(n_, X.UnaryExpression):
+                        old_ = n_.get_child()
+                        n_.set_child(None) if hasattr(n_, "set_child") else None
+                        n_.set_child(old_)
                     else:
-                        top = o
-                        while top.parent is not None and top.parent is not py:
-                            top = top.parent
-                        want_rs = "left" if py.left is top else "right"
-                        if o.get_root_side() != want_rs:
-                            problem = "get_root_side"
-            except Exception as e:  # noqa
-                problem = f"link query raised {type(e).__name__}"
-            if problem:
-                bad.append({"tree": core.tuple_str(t), "query": problem + " (expression classes)", "node": str(o)})
-                break
+                        continue
+                    edits.append(kind)
+                except Exception:  # noqa
+                    break
+            if edits and not core.audit_links(cur):
+                pr_ = expr_link_problem(cur)
+                if pr_:
+                    bad.append({"tree": core.tuple_str(t), "edits": edits, "query": pr_[0] + " after edits (expression classes)",
+                                "node": pr_[1]})
     # find_id / to_list of the real expression classes vs the model's findId / toList
     for (tt, rv, i, idx, lst), a in zip(fmeta, drv.ask(flines)):
         toks = a.split()
@@ -617,7 +670,8 @@ def expr_signature(n):
     """shape, kinds, payloads, ids and operand sides of a real expression tree"""
     if n is None:
         return None
-    return (type(n).__name__, getattr(n, "value", None), getattr(n, "identifier", None), n.id,
+    v = getattr(n, "value", None)
+    return (type(n).__name__, (type(v).__name__, repr(v)), getattr(n, "identifier", None), n.id,
             getattr(n, "child_on_left", None), expr_signature(n.left), expr_signature(n.right))
 
 
@@ -655,6 +709,8 @@ def make_variants(rng, t):
         k = t[0]
         if k == "C":
             q = t[2]
+            if q.denominator == 1 and rng.random() < 0.25:
+                return X.ConstantExpression(float(q))      # 3.0 is not 3: float arithmetic follows
             return X.ConstantExpression(int(q) if q.denominator == 1 else float(q))
         if k == "V":
             return X.VariableExpression(t[2])
@@ -666,6 +722,14 @@ def make_variants(rng, t):
             return cls(c)
         return core.BOP_CLS[t[2]](b(t[3], flip), b(t[4], flip))
     return [b(t, False), b(t, True)]
+
+
+def _outcome_repr(n):
+    try:
+        v = n.evaluate({})
+        return ("v", type(v).__name__, repr(v)) if v == v else ("nan",)
+    except Exception as e:  # noqa
+        return ("exc", type(e).__name__)
 
 
 def c13(ctx):
@@ -688,6 +752,23 @@ def c13(ctx):
     n_eval = 0
     nontrivial = 0
     env = {v: 1.5 for v in "xyzabc"}
+    # constants whose Python type matters for what the tree evaluates to: whole-valued floats in
+    # arithmetic that leaves the exactly-representable range (3.0^40, 7.0^400, 1e16 + 1, ...)
+    C_, P_, A_, M_ = X.ConstantExpression, X.PowerExpression, X.AddExpression, X.MultiplyExpression
+    for mk in (lambda: P_(C_(3.0), C_(40)), lambda: P_(C_(7.0), C_(400)), lambda: A_(C_(1e16), C_(1)),
+               lambda: M_(C_(2.0), P_(C_(10), C_(30))), lambda: P_(C_(3), C_(40.0)), lambda: A_(C_(2 ** 70), C_(1.0)),
+               lambda: P_(X.NegateExpression(C_(3.0)), C_(41)), lambda: M_(C_(10 ** 25), C_(10.0 ** 25))):
+        root = mk()
+        n_eval += 1
+        try:
+            c = root.clone()
+            if expr_signature(c) != expr_signature(root):
+                bad.append({"tree": str(root), "problem": "clone signature differs (constant value / type)"})
+            a_, b_ = _outcome_repr(root), _outcome_repr(c)
+            if a_ != b_:
+                bad.append({"tree": str(root), "problem": "evaluates differently", "orig": a_, "clone": b_})
+        except Exception as e:  # noqa
+            bad.append({"tree": str(root), "problem": "clone raised " + type(e).__name__})
     for t in trees:
         for root in make_variants(rng, t):
             n_eval += 1
